@@ -88,3 +88,32 @@ Theorem C12_guard_iff_mentions_invalid : forall tbl itf a,
   has_invalid_alt tbl itf a = m_alt a.
 Proof. intros tbl itf a Hm Hd. exact (guard_exact tbl itf Hm a Hd). Qed.
 Print Assumptions C12_guard_iff_mentions_invalid.
+
+(* At the level of the generator: whatever rule it emits -- a rule of the grammar or a helper rule it
+   queued for a group, an optional, a repetition or a gather --, in whatever state, the k-th alternative of
+   the emitted method carries the guard `self.call_invalid_rules` EXACTLY when the k-th alternative of the
+   (flattened) rule body mentions a name beginning with "invalid" at any nesting depth.  Since every
+   method of a generated module is emitted this way (emit_all), every alternative of every generated
+   parser is guarded exactly when it should be. *)
+From Pegen Require Import Proofs.GenRefs.
+Theorem C12_generated_guards_are_exact :
+  forall tbl itf rs0 nullable_rules left_rec leaders item_flag r st m st',
+  forallb (fun kv => no_not (snd kv)) tbl = true -> detector_ok tbl = true ->
+  emit_rule tbl itf rs0 nullable_rules left_rec leaders item_flag r st = (inl m, st') ->
+  m_name m = rname r /\
+  map a_guard (m_alts m) = map m_alt (rhs_alts (flatten r)).
+Proof.
+  intros tbl itf rs0 nul lr ld fl r st m st' Hm Hd H. unfold emit_rule in H.
+  apply gbind_inv in H as (u0 & t0 & F0 & H). apply gbind_inv in H as (alts & t1 & F1 & H).
+  apply gret_spec in H as (-> & _). cbn [m_name m_alts]. split; [reflexivity|].
+  clear F0. revert t0 alts t1 F1. generalize (is_loop_name (rname r)) (is_gather_name (rname r)).
+  induction (rhs_alts (flatten r)) as [|a l IH]; intros lp ga t0 alts t1 F1; cbn [emit_alts] in F1.
+  - apply gret_spec in F1 as (-> & _). reflexivity.
+  - apply gbind_inv in F1 as (x & s0 & G0 & F1). apply gbind_inv in F1 as (xs & s1 & G1 & F1).
+    apply gret_spec in F1 as (-> & _). cbn [map]. rewrite (IH lp ga s0 xs s1 G1). f_equal.
+    (* the guard of one alternative *)
+    unfold emit_alt in G0.
+    repeat (apply gbind_inv in G0 as (?y & ?s & ?E & G0)). apply gret_spec in G0 as (-> & _). cbn [a_guard].
+    exact (guard_exact tbl itf Hm a Hd).
+Qed.
+Print Assumptions C12_generated_guards_are_exact.
